@@ -12,7 +12,7 @@ PREP = {"e2e.C01.roundtrip": "w.", "e2e.C07.corrupt": "w."}
 
 # ops whose implementation observation carries extra statistics after the first word (e.g. "same ok",
 # "same conferr"): only the first word is compared with the model's answer
-FIRST_WORD_FNS = {"c03.reject", "c10.schema", "c08.twin", "c08.known", "c15.versions", "c15.known", "c02.closure", "c02.known", "c19.origin", "c09.doc", "c09.known"}
+FIRST_WORD_FNS = {"c13.dry", "c03.reject", "c10.schema", "c08.twin", "c08.known", "c15.versions", "c15.known", "c02.closure", "c02.known", "c19.origin", "c09.doc", "c09.known"}
 
 # property module -> (modules the script imports, script run with `lake env lean --run`): prints `<name>=true|false`
 PRECHECK = {
@@ -198,10 +198,11 @@ PROPS = {
     },
     "C04": {
         "lean_modules": ["TableauVerif.Props.C04", "TableauVerif.Props.C11"],
-        "oracles": ["c04.det", "c11.merge"],
+        "oracles": ["c04.det", "c11.merge", "c13.dry"],
         "streams": [
             ("e2e.C04.determinism", 32, 600, 8),
             ("e2e.C11.merge", 200, 10000, 8),
+            ("e2e.C13.dryrun", 30, 1000),
         ],
         "assumptions": [
             "abstraction: the Go scheduler, the map hash seed and directory/glob enumeration are 'some permutation / some interleaving'; the theorems quantify over all of them; the runtime itself is trusted to realise one",
@@ -252,10 +253,13 @@ PROPS = {
     },
     "C05": {
         "lean_modules": ["TableauVerif.Props.C05"],
-        "oracles": ["c05.typeinfos", "c05.gen"],
+        "oracles": ["c05.typeinfos", "c05.gen", "c13.dry"],
         "streams": [
             ("replay.C05.typeinfos", 2, 12, 1),
             ("e2e.C05", 24, 400, 4),
+            # the per-overlay goroutines of a scattered sheet share nothing they write: previews are independent of each
+            # other and of the schedule (a violation shows as differing previews or as a crash of the worker)
+            ("e2e.C13.dryrun", 30, 1000),
         ],
         "assumptions": [
             "the lock programs are regenerated from the Go source (type-checked with go/packages) on every run; the discipline predicates over them are kernel-evaluated obligations",
@@ -297,16 +301,17 @@ PROPS = {
     },
     "C13": {
         "lean_modules": ["TableauVerif.Props.C13"],
-        "oracles": ["c13.patch", "c13.load"],
+        "oracles": ["c13.patch", "c13.load", "c13.dry"],
         "streams": [
             ("corr.xproto.patch", 6000, 300000),
             ("e2e.C13.load", 3000, 100000),
+            ("e2e.C13.dryrun", 40, 1500),
         ],
         "assumptions": [
             "modelled: xproto.PatchMessage/patchMessage/patchList/patchMap over message trees (populated fields only); unknown fields not modelled",
             "aliasing / src-unchanged is a heap property a pure model cannot express: checked at run time by the harness (proto.Equal of src before/after) and reported in the observation",
             "load.loadWithPatch is modelled as Model.Patch.load (patch type, load mode, existing / missing patch files in the given order) and tied by e2e.C13.load "
-            "through real files in json / text / bin and PatchDirs / PatchPaths; DryRun 'patch' output of confgen is not modelled",
+            "through real files in json / text / bin and PatchDirs / PatchPaths; DryRun 'patch' previews of a scattered PATCH_MERGE sheet are compared with the loader's result per overlay (e2e.C13.dryrun)",
         ],
     },
     "C03": {
